@@ -12,14 +12,14 @@ Theorem c02_receive_is_reference : forall fuel p st buf r,
     o = fst (ref_from st (stream buf r) (rtail r)) /\
     (forall resp, o = Resp resp ->
        stream (c_buf c') r' = snd (ref_from st (stream buf r) (rtail r)) /\
-       wf_reader r' /\ rtail r' = rtail r /\ pol_ok (c_policy c') (length (c_buf c')) /\
+       wf_reader r' /\ rtail r' = rtail r /\ pol_ok (c_policy c') (length (c_buf c')) /\ c_state c' = Initial /\
        (length (stream (c_buf c') r') < length (stream buf r))%nat)
   end.
 Proof. exact recv_loop_ref. Qed.
 
 (* The sequence of outcomes of repeated receive calls is the segmentation-free reference run. *)
 Theorem c02_run_is_reference : forall fuel c r,
-  wf_reader r -> pol_ok (c_policy c) (length (c_buf c)) ->
+  wf_reader r -> pol_ok (c_policy c) (length (c_buf c)) -> c_state c = Initial ->
   run fuel 0 c r = ref_run fuel (stream (c_buf c) r) (rtail r).
 Proof. exact run_ref. Qed.
 
@@ -27,16 +27,16 @@ Proof. exact run_ref. Qed.
 Theorem c02_same_bytes_same_outcomes : forall fuel p1 p2 r1 r2,
   wf_reader r1 -> wf_reader r2 -> pol_ok p1 0 -> pol_ok p2 0 ->
   concat (chunks r1) = concat (chunks r2) -> rtail r1 = rtail r2 ->
-  run fuel 0 (mkConn p1 []) r1 = run fuel 0 (mkConn p2 []) r2.
+  run fuel 0 (mkConn p1 [] Initial) r1 = run fuel 0 (mkConn p2 [] Initial) r2.
 Proof.
   intros fuel p1 p2 r1 r2 W1 W2 P1 P2 E T.
-  rewrite (run_ref fuel (mkConn p1 []) r1 W1 P1), (run_ref fuel (mkConn p2 []) r2 W2 P2).
+  rewrite (run_ref fuel (mkConn p1 [] Initial) r1 W1 P1 eq_refl), (run_ref fuel (mkConn p2 [] Initial) r2 W2 P2 eq_refl).
   unfold stream. simpl. rewrite E, T. reflexivity.
 Qed.
 
 Theorem c02_blocking_equals_async : forall fuel cap r,
   wf_reader r -> (1 <= cap)%nat ->
-  run fuel 0 (mkConn (Blocking cap) []) r = run fuel 0 (mkConn Async []) r.
+  run fuel 0 (mkConn (Blocking cap) [] Initial) r = run fuel 0 (mkConn Async [] Initial) r.
 Proof.
   intros fuel cap r W C. apply c02_same_bytes_same_outcomes; simpl; auto.
 Qed.
@@ -64,9 +64,9 @@ Example c02_ex :
   let r2 := mkReader (map (fun c => [c]) s) TEof in
   let r3 := mkReader [firstn 10 s; skipn 10 s] TEof in
   wf_reader r2 /\
-  run 50 0 (mkConn (Blocking 7) []) r1 = run 50 0 (mkConn Async []) r2 /\
-  run 50 0 (mkConn (Blocking 1) []) r3 = run 50 0 (mkConn Async []) r2 /\
-  length (run 50 0 (mkConn Async []) r2) = 2%nat.
+  run 50 0 (mkConn (Blocking 7) [] Initial) r1 = run 50 0 (mkConn Async [] Initial) r2 /\
+  run 50 0 (mkConn (Blocking 1) [] Initial) r3 = run 50 0 (mkConn Async [] Initial) r2 /\
+  length (run 50 0 (mkConn Async [] Initial) r2) = 2%nat.
 Proof. split; [vm_compute; repeat constructor; discriminate | repeat split; vm_compute; reflexivity]. Qed.
 
 Print Assumptions c02_receive_is_reference.
